@@ -1920,6 +1920,10 @@ func RunFrame(frame *py.Frame) (res py.Object, err error) {
 	if debugging {
 		debugf("EXIT with %v\n", vm.why)
 	}
+	// The frame has finished (return or exception, possibly resumed
+	// through END_FINALLY rather than RETURN_VALUE): a generator owning
+	// it must not resume it again.
+	frame.Yielded = false
 	if vm.why != whyReturn {
 		vm.retval = nil
 	}
